@@ -1,8 +1,209 @@
-(* C07 — DTD: malformed XML values are errors, well-formed ones never are. *)
-From Coq Require Import NArith List Bool Arith.
-From CL Require Import Base.Sx Base.Res Base.Str Model.CSS Model.XmlContent Model.CheckDTD.
-Import ListNotations.
+(* C07 — DTD: malformed XML values are errors, well-formed ones never are.
 
-Example C07_example_content :
-  content_ok [[102; 111; 111]%N] (map N.of_nat [60; 98; 62; 38; 102; 111; 111; 59; 60; 47; 98; 62]) = true.
+   Theorems only; each is closed by a lemma of Proofs/.  What they are about:
+
+   * Model/CheckDTD.v, Model/CSS.v — the code of checks/dtd.py and CSSCheckMixin
+     with expat (xml.sax) as a PARAMETER [sax] (any function from the document to
+     an outcome) and the unicode-escape codec as a parameter [uesc]; regular
+     expressions, templates and messages are the generated facts.
+   * Model/XmlContent.v — a well-formedness checker for element content, my
+     stand-in for expat.  The two [_partial] theorems are about it, NOT about
+     expat; that expat agrees with it is checked by execution only (suite XML).
+
+   [_partial] also marks C07_css_parse_partial: parse_css_spec on rendered spec
+   lists is proved for the token space written in the statement (lists of at
+   most three specs), by evaluation.
+   [_refuted]: the property's grammar "character references to anything but & and <"
+   is too generous — see C07_charref_grammar_refuted. *)
+From Coq Require Import NArith ZArith List Bool Arith String Ascii.
+From CL Require Import Base.Sx Base.Res Base.Str Regex.Rx Generated.RxC07 Generated.C07Facts
+  Model.CSS Model.XmlContent Model.CheckDTD
+  Proofs.CheckDTDProofs Proofs.CheckDTDSpec Proofs.CheckDTDTheorems Proofs.CSSProofs
+  Proofs.XmlRejectProofs Proofs.XmlAcceptProofs Proofs.XmlValueProofs Proofs.C07Final.
+Import ListNotations.
+Local Open Scope list_scope.
+
+(* ---- the plumbing never leaves a recognised reference undeclared ------------------------------
+   For every cache state, every set of reference values and every pair of entities: the four
+   documents are the template around exactly these declaration lists, every name the `eref`
+   expression captures in the localized value is declared in its documents (or predefined),
+   and so is every name of the reference value when the cache is fresh and the value belongs
+   to the reference. *)
+Theorem C07_declared : forall cache reference ref l10n docs,
+  documents cache reference ref l10n = Ok docs ->
+  exists reflist cache' l10nlist,
+    known_entities cache reference (e_val ref) = Ok (reflist, cache') /\
+    entities_for_value (e_val l10n) = Ok l10nlist /\
+    let names := reflist ++ missing_names reflist l10nlist in
+    docs = [doc (decls reflist) (e_val ref);
+            doc (e_all ref ++ decls reflist) (CSS.render t_selfref [e_key ref]);
+            doc (decls names) (e_val l10n);
+            doc (e_all l10n ++ decls names) (CSS.render t_selfref [e_key l10n])] /\
+    (forall ns n, eref_names (e_val l10n) = Ok ns -> In n ns -> In n names \/ In n xmllist) /\
+    (cache = None ->
+     match reference with Some refs => In (e_val ref) refs | None => True end ->
+     forall ns n, eref_names (e_val ref) = Ok ns -> In n ns -> In n reflist \/ In n xmllist).
+Proof. exact declared_complete. Qed.
+
+(* ---- one warning per unknown entity, naming it ----------------------------------------------------
+   For every oracle: the warnings of category xmlparse whose message starts with
+   "Referencing unknown entity `" are, in order, one per name of a duplicate-free list
+   [unknown]; the message is prefix ++ name ++ "`" ++ context; a name is in [unknown] iff the
+   localized value references it and neither a reference value nor xmllist knows it. *)
+Theorem C07_unknown_entity_warnings :
+  forall sax uesc cache reference android ref l10n issues cache',
+  check sax uesc cache reference android ref l10n = Ok (issues, cache') ->
+  exists reflist inContext unknown,
+    known_entities cache reference (e_val ref) = Ok (reflist, cache') /\
+    entities_for_value (e_val ref) = Ok inContext /\
+    filter is_unknown_warning issues = map (unknown_issue (warn_suffix reflist inContext)) unknown /\
+    (forall k, i_msg (unknown_issue (warn_suffix reflist inContext) k) =
+               unknown_prefix ++ k ++ unknown_close ++ warn_suffix reflist inContext) /\
+    NoDup unknown /\
+    (forall ns n, eref_names (e_val l10n) = Ok ns ->
+       (In n unknown <-> In n ns /\ ~ In n reflist /\ ~ In n xmllist)).
+Proof. exact unknown_entity_warnings. Qed.
+
+(* ---- number / length ------------------------------------------------------------------------------------
+   length reference -> (the css error <-> the localization is not a length);
+   number reference -> (the number warning <-> the localization is not a number) *)
+Theorem C07_number_length :
+  forall sax uesc cache reference android ref l10n issues cache',
+  check sax uesc cache reference android ref l10n = Ok (issues, cache') ->
+  (In (lit_issue y_css_length (PInt 0)) issues <->
+   is_match rx_c07_length (e_val ref) = true /\ is_match rx_c07_length (e_val l10n) = false) /\
+  (In (lit_issue y_number (PInt 0)) issues <->
+   is_match rx_c07_num (e_val ref) = true /\ is_match rx_c07_num (e_val l10n) = false).
+Proof.
+  intros. split; [eapply length_verdict | eapply number_verdict]; eassumption.
+Qed.
+
+(* ---- CSS specs ---------------------------------------------------------------------------------------------
+   a reference that parses to a non-empty spec: an unparseable localization (no spec, or
+   parse errors) is the one css error; a parseable one yields nothing iff it maps the same
+   properties to the same units, and exactly one warning otherwise *)
+Theorem C07_css_verdict : forall rv lv rm e1 lmo errs,
+  parse_css_spec rv = Ok (Some rm, e1) -> rm <> [] ->
+  parse_css_spec lv = Ok (lmo, errs) ->
+  ((lmo = None \/ lmo = Some [] \/ nonempty errs = true) ->
+   maybe_style rv lv = Ok [lit_issue y_css_spec (PInt 0)]) /\
+  (forall lm, lmo = Some lm -> lm <> [] -> nonempty errs = false ->
+   (maybe_style rv lv = Ok [] <-> agree rm lm) /\
+   (~ agree rm lm -> exists msg, maybe_style rv lv = Ok [var_issue y_css_warn (PInt 0) msg])).
+Proof. exact maybe_style_verdict. Qed.
+
+(* parse_css_spec of a rendered spec list is the list's map, without errors — for every list
+   of [bounded_spec_lists] (all single specs over 4 properties x 4 numbers x 10 units, all
+   pairs over 4 x 2 x 10, all triples over 4 x 1 x 2) in every layout of [layouts] (blanks
+   around the colon, three separators, with and without a trailing separator).
+   PARTIAL: the bound; longer lists are reached by execution only. *)
+Theorem C07_css_parse_partial : forall l colon sep trailing,
+  In l bounded_spec_lists -> In (colon, sep, trailing) layouts ->
+  parse_css_spec (render_specs colon sep trailing l) = Ok (Some (spec_map l), None).
+Proof. exact parse_rendered_bounded. Qed.
+
+(* ---- the value grammar is accepted (XmlContent) ---------------------------------------------------------------
+   tokens: text without < & >, references to declared or predefined names other than the
+   entity's own, decimal / hexadecimal character references to inert characters (a legal
+   Char that is none of & < > and the two quote characters), start / empty / end tags with distinct, double-quoted
+   attributes whose values are such text (without the quote), references and character
+   references; balanced; no '%'.  Then both documents of the check are accepted.
+   PARTIAL: a statement about Model/XmlContent.v; expat is compared by execution. *)
+Theorem C07_wellformed_accepted_partial : forall declared key ts,
+  forallb (tok_ok (fun n => negb (str_eqb n key) && declared_ok declared n)) ts = true ->
+  bal [] ts = true -> no_pct (XmlAcceptProofs.render ts) = true ->
+  value_ok declared key (XmlAcceptProofs.render ts) = true.
+Proof. exact grammar_value_ok. Qed.
+
+(* the machine decides balance: an unbalanced or mis-nested token list is rejected *)
+Theorem C07_balance_decided_partial : forall refok ts,
+  forallb (tok_ok refok) ts = true ->
+  fragment_ok refok (XmlAcceptProofs.render ts) = bal [] ts.
+Proof. exact grammar_fragment. Qed.
+
+(* ---- every breaking edit at every position is rejected (XmlContent) ------------------------------------------------
+   for all strings without "<!" and "<?" (no comment / CDATA / PI), whatever is declared.
+   PARTIAL: a statement about Model/XmlContent.v; expat is compared by execution. *)
+Theorem C07_broken_rejected_partial : forall declared key,
+  (forall p v, In p [pat_bare_amp; pat_bare_lt; pat_unterminated; pat_misnested] ->
+     contains p v = true -> no_special v = true -> value_ok declared key v = false) /\
+  (forall a b, no_special a = true -> content_ok declared (a ++ b) = true ->
+     value_ok declared key (a ++ pat_open ++ b) = false /\
+     value_ok declared key (a ++ pat_close ++ b) = false) /\
+  (forall v, In c_pct v -> value_ok declared key v = false).
+Proof. exact broken_rejected. Qed.
+
+(* ---- examples: the premises are satisfiable, concrete runs ---------------------------------------------------------- *)
+Definition s (x : string) : str := map (fun a => N.of_nat (nat_of_ascii a)) (list_ascii_of_string x).
+
+Definition ex_tokens : list tok :=
+  [TPart (AText (s "a ] "));
+   TOpen (s "b") [(s "href", [AText (s "x>y "); ARef (s "foo")]); (s "id", [ADec (s "37")])];
+   TPart (ARef (s "amp")); TPart (AHex (s "e9")); TEmpty (s "br") [];
+   TClose (s "b")].
+
+Example C07_example_grammar :
+  XmlAcceptProofs.render ex_tokens = s "a ] <b href=""x>y &foo;"" id=""&#37;"">&amp;&#xe9;<br/></b>" /\
+  forallb (tok_ok (fun n => negb (str_eqb n (s "k")) && declared_ok [s "foo"] n)) ex_tokens = true /\
+  bal [] ex_tokens = true /\ no_pct (XmlAcceptProofs.render ex_tokens) = true /\
+  value_ok [s "foo"] (s "k") (XmlAcceptProofs.render ex_tokens) = true.
+Proof. vm_compute. repeat split; reflexivity. Qed.
+
+Example C07_example_broken :
+  contains pat_bare_amp (s "Tom & Jerry") = true /\ no_special (s "Tom & Jerry") = true /\
+  value_ok [] (s "k") (s "Tom & Jerry") = false /\
+  content_ok [] (s "a<i>b</i>") = true /\ value_ok [] (s "k") (s "a<i><u>b</i>") = false /\
+  value_ok [] (s "k") (s "100%") = false.
+Proof. vm_compute. repeat split; reflexivity. Qed.
+
+(* a run of the whole check with XmlContent as the oracle: one unknown entity, named *)
+Example C07_example_check :
+  let ref := mkent (s "k") (s "a &foo;") (s "<!ENTITY k ""a &foo;"">") in
+  let l10n := mkent (s "k") (s "b &foo; &bar; &amp;") (s "<!ENTITY k ""b &foo; &bar; &amp;"">") in
+  match check xml_sax (fun _ => None) None (Some [s "a &foo;"; s "x &baz;"]) false ref l10n with
+  | Ok (issues, cache') =>
+      map (fun i => (i_error i, i_msg i)) issues =
+        [(false, s "Referencing unknown entity `bar` (foo used in context, baz known)")] /\
+      cache' = Some [s "baz"; s "foo"]
+  | Raise _ => False
+  end.
+Proof. vm_compute. split; reflexivity. Qed.
+
+Example C07_example_broken_check :
+  let ref := mkent (s "k") (s "a") (s "<!ENTITY k ""a"">") in
+  let l10n := mkent (s "k") (s "b & c") (s "<!ENTITY k ""b & c"">") in
+  match check xml_sax (fun _ => None) None (Some [s "a"]) false ref l10n with
+  | Ok (issues, _) => map (fun i => (i_error i, i_cat i)) issues = [(true, s "xmlparse")]
+  | Raise _ => False
+  end.
 Proof. vm_compute. reflexivity. Qed.
+
+Example C07_example_number_length :
+  is_match rx_c07_length (s "12em") = true /\ is_match rx_c07_length (s "12") = false /\
+  is_match rx_c07_num (s "12") = true /\ is_match rx_c07_num (s "12em") = false.
+Proof. vm_compute. repeat split; reflexivity. Qed.
+
+Example C07_example_css :
+  parse_css_spec (s "width: 20em; height:3ch") = Ok (Some [(s "width", s "em"); (s "height", s "ch")], None) /\
+  maybe_style (s "width: 20em; height:3ch") (s "height:5ch;width:30em;") = Ok [] /\
+  maybe_style (s "width: 20em") (s "width:30px") =
+    Ok [var_issue y_css_warn (PInt 0) (s "units for width don't match (px != em)")] /\
+  maybe_style (s "width: 20em") (s "wide") = Ok [lit_issue y_css_spec (PInt 0)] /\
+  List.length bounded_spec_lists = 160 + 6400 + 512 /\ List.length layouts = 12.
+Proof. vm_compute. repeat split; reflexivity. Qed.
+
+(* ---- the property's grammar is too generous -------------------------------------------------------------------------
+   "character references to anything but & and <" are not all harmless: the second document
+   makes expat read the REPLACEMENT TEXT of the entity, in which character references are
+   already replaced (XML 1.0, 4.5).  A reference to > after ]] and a reference to the
+   attribute's own quote inside its value are element content (first document accepted)
+   whose replacement text is not.  The same two inputs are errors of the implementation
+   (harness signatures false-error:charref-completes-cdata-end / charref-quote-in-attribute). *)
+Theorem C07_charref_grammar_refuted :
+  exists v1 v2,
+    content_ok [] v1 = true /\ value_ok [] (s "k") v1 = false /\
+    content_ok [] v2 = true /\ value_ok [] (s "k") v2 = false /\
+    v1 = s "]]&#62;" /\ v2 = s "<a href=""&#34;""/>".
+Proof.
+  exists (s "]]&#62;"), (s "<a href=""&#34;""/>"). vm_compute. repeat split; reflexivity.
+Qed.
